@@ -43,6 +43,7 @@ inductive Op where
   | push (prod : Nat) (v : Nat)
   | pushthrow             -- `push` whose item constructor throws
   | pop (cons : Nat)
+  | popthrow (cons : Nat)   -- `pop` while the item's move constructor throws on the hand-over
   | upop (c : Nat)
   | size
   | empty
@@ -82,6 +83,7 @@ structure State where
   completed : List Ev := []     -- resolutions performed so far, in order
   unblocks : List (Pop × Nat) := []   -- successful `unblock_pop(c)` calls: (pop that was failed, c)
   throws : List Pop := []       -- pops failed by a `push` whose item constructor threw
+  rethrown : List Item := []    -- items whose hand-over to a pop threw (they stay queued)
   deriving Repr
 
 def init : State := {}
@@ -152,6 +154,17 @@ def stepPushThrowC (s : State) : State × Res :=
 def stepPopC (s : State) (c : Nat) : State × Res :=
   if s.items.isEmpty && waitersFull s then (s, Res.full) else stepPop s c
 
+/-- `queue::pop` while the item's move constructor throws on the hand-over (queue.h:203-209).  Empty queue: nothing is
+handed over, an ordinary `pop`.  Otherwise `promise(std::move(_queue.front()))` throws out of the construction of the
+future's value: `promise::set_value` resolves the future that is being constructed and rethrows, the exception leaves the
+initialiser of `future<T>` and `pop()` itself - the caller gets no future (no pop serial) - *before* `_queue.pop()`
+(queue.h:208) is reached, and the `unique_lock` unlocks during unwinding: the item stays at the front of the queue, to be
+delivered to the next pop.  Only the ghost log `rethrown` changes. -/
+def stepPopThrowC (s : State) (c : Nat) : State × Res :=
+  match s.items with
+  | [] => stepPopC s c
+  | x :: _ => ({ s with rethrown := s.rethrown ++ [x] }, Res.threw)
+
 /-- `queue::unblock_pop` lock region (queue.h:223-230) -/
 def stepUpop (s : State) (c : Nat) : State × Res :=
   match s.waiters with
@@ -177,6 +190,7 @@ def stepLive (s : State) (op : Op) : State × Res :=
   | Op.push p v => stepPushC s p v
   | Op.pushthrow => stepPushThrowC s
   | Op.pop c => stepPopC s c
+  | Op.popthrow c => stepPopThrowC s c
   | Op.upop c => stepUpop s c
   | Op.size => (s, Res.num s.items.length)
   | Op.empty => (s, Res.flag s.items.isEmpty)
@@ -248,6 +262,10 @@ def stepPop (s : State) (c : Nat) : State × Res :=
 def stepPopC (s : State) (c : Nat) : State × Res :=
   if (s.sz == 0) && waitersFull s then (s, Res.full) else stepPop s c
 
+/-- mirror of `Q.stepPopThrowC` (`void` has no item whose hand-over could throw) -/
+def stepPopThrowC (s : State) (c : Nat) : State × Res :=
+  if s.sz = 0 then stepPopC s c else (s, Res.threw)
+
 def stepUpop (s : State) (c : Nat) : State × Res :=
   match s.waiters with
   | [] => (s, Res.flag false)
@@ -270,6 +288,7 @@ def stepLive (s : State) (op : Op) : State × Res :=
   | Op.push _ _ => stepPush s
   | Op.pushthrow => stepPushThrow s
   | Op.pop c => stepPopC s c
+  | Op.popthrow c => stepPopThrowC s c
   | Op.upop c => stepUpop s c
   | Op.size => (s, Res.num s.sz)
   | Op.empty => (s, Res.flag (s.sz == 0))
